@@ -10,7 +10,7 @@ Lists are described by right unfoldings (`the text of the first hi elements'), w
 writer that emits them left to right has produced after hi steps.
 (spec/schema.py: pcf is an independent executable version used by the bounded stand-in.)"""
 from pyvc.dsl import spec, opaque, dset
-from spec.core import str_of_int
+from spec.core import str_of_int, f_str_parses
 
 
 @spec
@@ -132,3 +132,37 @@ def MERGED(a: dict, b: dict, hi: int) -> dict:
     if hi <= 0:
         return a
     return dset(MERGED(a, b, hi - 1), list(b)[hi - 1], list(b.values())[hi - 1])
+
+
+# ------------------------------------------------------------------ field defaults (C11)
+@spec
+def DEFAULT_MATCHES(default: object, s: object) -> bool:
+    """does JSON value `default` have the JSON kind that a field of (non-union) type s expects?  null: null;
+    boolean: true/false; string, bytes, enum, fixed: a string; int, long: an integer (not a boolean);
+    float, double: a number (not a boolean) or a string float() understands ("NaN", "Infinity", ...);
+    array: an array; map, record, error: an object.  By-name references are not looked at."""
+    if isinstance(s, dict):
+        if s["type"] == "array":
+            return isinstance(default, list)
+        if s["type"] == "map" or s["type"] == "record" or s["type"] == "error":
+            return isinstance(default, dict)
+        if s["type"] == "enum" or s["type"] == "fixed":
+            return isinstance(default, str)
+        return PRIM_DEFAULT_MATCHES(default, s["type"])
+    return PRIM_DEFAULT_MATCHES(default, s)
+
+
+@spec
+def PRIM_DEFAULT_MATCHES(default: object, t: object) -> bool:
+    if t == "null":
+        return default is None
+    if t == "boolean":
+        return isinstance(default, bool)
+    if t == "string" or t == "bytes":
+        return isinstance(default, str)
+    if t == "int" or t == "long":
+        return isinstance(default, int) and not isinstance(default, bool)
+    if t == "float" or t == "double":
+        return (not isinstance(default, bool)) and (isinstance(default, int) or isinstance(default, float)
+                                                     or (isinstance(default, str) and f_str_parses(default)))
+    return True
